@@ -40,8 +40,10 @@ impl G {
                 self.body.push(json!({"o":"nop"}));
                 *budget -= 1;
             } else if r < 48 && depth < self.max_depth {
-                self.body.push(json!({"o":"block","r":0}));
-                self.kinds.push("block");
+                // one block in five is a try_table without catch clauses
+                let o = if self.rng.gen_range(0..5) == 0 { "try" } else { "block" };
+                self.body.push(json!({"o":o,"r":0}));
+                self.kinds.push(if o == "try" { "try" } else { "block" });
                 *budget -= 2;
                 self.seq(budget);
                 self.kinds.pop();
@@ -132,7 +134,7 @@ fn matching(body: &[J]) -> (Vec<usize>, Vec<usize>) {
     let mut st: Vec<usize> = vec![];
     for (i, ins) in body.iter().enumerate() {
         match ins["o"].as_str().unwrap() {
-            "block" | "loop" | "if" => st.push(i),
+            "block" | "loop" | "if" | "try" => st.push(i),
             "else" => {
                 if let Some(&o) = st.last() {
                     els[o] = i;
@@ -157,6 +159,7 @@ fn target_kinds(body: &[J], i: usize) -> Vec<&'static str> {
     for ins in body.iter().take(i) {
         match ins["o"].as_str().unwrap() {
             "block" => st.push("block"),
+            "try" => st.push("try"),
             "loop" => st.push("loop"),
             "if" => st.push("if"),
             "end" => {
@@ -186,6 +189,9 @@ fn target_kinds(body: &[J], i: usize) -> Vec<&'static str> {
 
 fn modes_at(body: &[J], i: usize) -> Vec<&'static str> {
     let o = body[i]["o"].as_str().unwrap();
+    if o == "try" {
+        return vec![]; // nothing is injected on the try_table itself
+    }
     let mut m = vec!["before", "after"];
     if o == "op" || o == "nop" || i + 1 == body.len() {
         m.push("alternate");
@@ -200,7 +206,7 @@ fn modes_at(body: &[J], i: usize) -> Vec<&'static str> {
     if ["block", "if", "else"].contains(&o) {
         m.push("semantic_after");
     }
-    if ["br", "br_if", "br_table"].contains(&o) && !target_kinds(body, i).contains(&"loop") {
+    if ["br", "br_if", "br_table"].contains(&o) && !target_kinds(body, i).contains(&"loop") && !target_kinds(body, i).contains(&"try") {
         m.push("semantic_after");
     }
     m
